@@ -29,6 +29,7 @@ type vrfC05 struct {
 	nested   int    // nested instructions still allowed inside an IPFS call
 	healthy  bool   // daemon answers every call successfully
 	refused  []bool // last instruction on the CID was refused with ErrFullQueue
+	overRec  []bool // the last instruction asked for a direct pin while the daemon held the CID recursively
 }
 
 func (h *vrfC05) mkPin(i int, local, direct, everywhere bool) *api.Pin {
@@ -77,6 +78,7 @@ func (h *vrfC05) instruction(allowWorkers bool) {
 		everywhere := vrf_nondet_bool("everywhere")
 		p := h.mkPin(i, true, kind == 1, everywhere)
 		h.ps.set(p)
+		h.overRec[i] = kind == 1 && h.d.held[i] == vrfRecursive
 		err := h.spt.Track(ctx, p)
 		h.last[i], h.lastMode[i] = vrfInsTrackLocal, kind == 1
 		h.refused[i] = err != nil
@@ -86,12 +88,13 @@ func (h *vrfC05) instruction(allowWorkers bool) {
 		h.ps.set(p)
 		err := h.spt.Track(ctx, p)
 		h.last[i] = vrfInsTrackRemote
-		h.refused[i] = false
+		h.refused[i], h.overRec[i] = false, false
 		vrf_assert(err == nil, "C05.track-remote.no-error")
 	case 3:
 		h.ps.remove(c)
 		err := h.spt.Untrack(ctx, c)
 		h.last[i] = vrfInsUntrack
+		h.overRec[i] = false
 		h.refused[i] = err != nil
 		vrf_assert(err == nil || err == ErrFullQueue, "C05.untrack.only-queue-error")
 	case 4:
@@ -170,11 +173,17 @@ func VrfC05Schedule() {
 	h := &vrfC05{n: n, ps: &vrfPinset{}, d: &vrfDaemon{}}
 	for i := 0; i < n; i++ {
 		h.d.cids = append(h.d.cids, vrfCid(i))
-		h.d.held = append(h.d.held, vrfNotHeld)
+		// arbitrary earlier history: the daemon may already hold the CID
+		held := vrfNotHeld
+		if vrf_param("prestate") == 1 {
+			held = vrf_choice("held_before", 3)
+		}
+		h.d.held = append(h.d.held, held)
 	}
 	h.last = make([]int, n)
 	h.lastMode = make([]bool, n)
 	h.refused = make([]bool, n)
+	h.overRec = make([]bool, n)
 	h.nested = vrf_param("nested")
 	h.d.onCall = h.onCall
 	h.spt = vrfNewTracker(h.ps, h.d, vrf_param("queue"))
@@ -202,6 +211,7 @@ func VrfC05Schedule() {
 		h.drain()
 		for i := 0; i < n; i++ {
 			vrf_note_bool("recover_direct", h.lastMode[i])
+			vrf_note_bool("direct_tracked_while_recursively_held", h.overRec[i])
 			vrf_assert(h.matches(i), "C05.recover.matches")
 		}
 	}
